@@ -51,12 +51,15 @@ pub fn observe() -> Value {
         }
         pools.push(json!({"db": id.db, "user": id.user, "hash": format!("{:016x}", pool.config_hash), "obj": obj,
                           "mode": format!("{:?}", pool.settings.pool_mode), "pool_size": pool.settings.user.pool_size,
-                          "default_role": format!("{:?}", pool.settings.default_role), "password": pool.settings.user.password, "servers": servers}));
+                          "default_role": format!("{:?}", pool.settings.default_role), "password": pool.settings.user.password, "servers": servers,
+                          "statement_timeout": pool.settings.user.statement_timeout, "paused": pool.paused()}));
     }
     drop(all); // the temporary clones made by get_all_pools() must not count as holders
     // every pool object ever seen: how many ConnectionPool clones (store + clients) still exist
     let objects: Vec<Value> = seen.iter().enumerate().map(|(i, (_, id, w))| json!({"obj": i, "id": id, "clones": w.strong_count()})).collect();
-    json!({"config": {"path": cfg.path, "general": general, "pools": cpools}, "pools": pools, "objects": objects})
+    json!({"config": {"path": cfg.path, "general": general, "pools": cpools,
+                      "idle_client_in_transaction_timeout": cfg.general.idle_client_in_transaction_timeout},
+           "pools": pools, "objects": objects})
 }
 
 /// reload_config in its own task: a panic inside it is reported, not propagated.
